@@ -3,6 +3,7 @@
 package api
 
 import (
+	"context"
 	"fmt"
 	"net/http"
 	"net/http/httptest"
@@ -12,10 +13,26 @@ import (
 	"time"
 
 	"github.com/prometheus/client_golang/prometheus"
-	"github.com/prometheus/client_golang/prometheus/testutil"
+	"github.com/prometheus/common/model"
+	"github.com/prometheus/common/route"
 
+	"github.com/prometheus/alertmanager/config"
+	"github.com/prometheus/alertmanager/dispatch"
 	"github.com/prometheus/alertmanager/internal/verif/rep"
+	"github.com/prometheus/alertmanager/provider"
+	"github.com/prometheus/alertmanager/silence"
+	"github.com/prometheus/alertmanager/types"
 )
+
+type c18NoAlerts struct{}
+
+func (c18NoAlerts) Subscribe(string) provider.AlertIterator { return nil }
+func (c18NoAlerts) SlurpAndSubscribe(string) ([]*types.Alert, provider.AlertIterator) {
+	return nil, nil
+}
+func (c18NoAlerts) GetPending() provider.AlertIterator          { return nil }
+func (c18NoAlerts) Get(model.Fingerprint) (*types.Alert, error) { return nil, provider.ErrNotFound }
+func (c18NoAlerts) Put(context.Context, ...*types.Alert) error  { return nil }
 
 // C18 (GET limiter with a request timeout, --web.timeout > 0): the same limiter behind http.TimeoutHandler, in
 // virtual time. When the timeout fires the client is answered 503 but the handler goroutine keeps running; it
@@ -24,24 +41,72 @@ import (
 
 const c18TO = 10 * time.Second
 
-var c18tNames = []string{"start GET", "start POST", "let the timeout pass (11s)", "finish oldest running handler", "finish 2nd running handler"}
+var c18tNames = []string{"start GET (web tree)", "start POST", "let the timeout pass (11s)", "finish oldest running handler", "finish 2nd running handler", "start GET /api/v2/alerts/groups (API tree)"}
 
 func c18SeqTimeout(t *testing.T, conc int, timeout time.Duration, seq []int) (viol, desc, obs string) {
 	synctest.Test(t, func(t *testing.T) {
-		a := &API{
-			requestsInFlight:         prometheus.NewGauge(prometheus.GaugeOpts{Name: "x"}),
-			concurrencyLimitExceeded: prometheus.NewCounter(prometheus.CounterOpts{Name: "y"}),
-			inFlightSem:              make(chan struct{}, conc),
-			timeout:                  timeout,
+		// The API is built and mounted the way the application does it (api.New, Register): the limiter then wraps two
+		// handler trees, the web router mounted at "/" (UI, /metrics, health) and the API tree. The limit is one limit
+		// for the process: GETs on either tree count against it.
+		reg := prometheus.NewRegistry()
+		sils, err := silence.New(silence.Options{Metrics: prometheus.NewRegistry()})
+		if err != nil {
+			panic(err)
 		}
 		var reqs []*c18Req
-		inner := http.HandlerFunc(func(w http.ResponseWriter, r *http.Request) {
-			q := r.Context().Value(ctxKey{}).(*c18Req)
+		block := func(ctx context.Context) {
+			q := ctx.Value(ctxKey{}).(*c18Req)
 			close(q.entered)
 			<-q.release
-			w.WriteHeader(200)
+		}
+		a, err := New(Options{
+			Alerts:         c18NoAlerts{},
+			Silences:       sils,
+			GroupMutedFunc: func(string, string) ([]string, bool) { return nil, false },
+			GroupFunc: func(ctx context.Context, _ func(*dispatch.Route) bool, _ func(*types.Alert, time.Time) bool) (dispatch.AlertGroups, map[model.Fingerprint][]string, error) {
+				block(ctx)
+				return dispatch.AlertGroups{}, map[model.Fingerprint][]string{}, nil
+			},
+			Concurrency:     conc,
+			Timeout:         timeout,
+			Registry:        reg,
+			RequestDuration: prometheus.NewHistogramVec(prometheus.HistogramOpts{Name: "verif_http_request_duration_seconds"}, []string{"handler", "method", "code"}),
 		})
-		h := a.limitHandler(inner)
+		if err != nil {
+			panic(err)
+		}
+		cfg, err := config.Load("route:\n  receiver: x\nreceivers:\n- name: x\n")
+		if err != nil {
+			panic(err)
+		}
+		a.Update(cfg, func(context.Context, model.LabelSet) {})
+		inner := func(w http.ResponseWriter, r *http.Request) {
+			block(r.Context())
+			w.WriteHeader(200)
+		}
+		web := route.New()
+		web.Get("/x", inner)
+		web.Post("/x", inner)
+		h := a.Register(web, "/")
+		metric := func(name string) float64 {
+			mfs, err := reg.Gather()
+			if err != nil {
+				panic(err)
+			}
+			for _, mf := range mfs {
+				if mf.GetName() == name {
+					for _, m := range mf.GetMetric() {
+						if m.GetCounter() != nil {
+							return m.GetCounter().GetValue()
+						}
+						if m.GetGauge() != nil {
+							return m.GetGauge().GetValue()
+						}
+					}
+				}
+			}
+			panic("metric " + name + " is not registered")
+		}
 		running := func(method string) int { // handlers that entered and were not released
 			n := 0
 			for _, q := range reqs {
@@ -68,13 +133,17 @@ func c18SeqTimeout(t *testing.T, conc int, timeout time.Duration, seq []int) (vi
 		}()
 		for _, e := range seq {
 			switch e {
-			case 0, 1:
-				method := []string{"GET", "POST"}[e]
+			case 0, 1, 5:
+				method := []string{"GET", "POST", "", "", "", "GET"}[e]
+				path := "/x"
+				if e == 5 {
+					path = "/api/v2/alerts/groups"
+				}
 				before := running("GET")
 				q := &c18Req{method: method, release: make(chan struct{}), done: make(chan int, 1), entered: make(chan struct{})}
 				reqs = append(reqs, q)
 				go func() {
-					r := httptest.NewRequest(method, "/api/v2/alerts", nil)
+					r := httptest.NewRequest(method, path, nil)
 					r = r.WithContext(contextWith(r, q))
 					w := httptest.NewRecorder()
 					h.ServeHTTP(w, r)
@@ -106,7 +175,7 @@ func c18SeqTimeout(t *testing.T, conc int, timeout time.Duration, seq []int) (vi
 							return
 						}
 						refused++
-						if got := testutil.ToFloat64(a.concurrencyLimitExceeded); got != refused {
+						if got := metric("alertmanager_http_concurrency_limit_exceeded_total"); got != refused {
 							fail("refusal-not-counted", fmt.Sprintf("counter %v after %v refusals", got, refused))
 							return
 						}
@@ -146,7 +215,7 @@ func c18SeqTimeout(t *testing.T, conc int, timeout time.Duration, seq []int) (vi
 				synctest.Wait()
 			}
 			// the gauge follows the running GET handlers
-			if g := int(testutil.ToFloat64(a.requestsInFlight)); g != running("GET") {
+			if g := int(metric("alertmanager_http_requests_in_flight")); g != running("GET") {
 				fail("in-flight-gauge-differs-from-running-handlers", fmt.Sprintf("gauge %d, %d GET handlers running", g, running("GET")))
 				return
 			}
@@ -209,6 +278,6 @@ func c18Limiter(t *testing.T, part string, timeout time.Duration) {
 		rec(nil)
 	}
 	R.Exhaustive = true
-	R.Bound = fmt.Sprintf("all sequences of <= %d events over %v, concurrency 1 and 2, web timeout %v, through the real limitHandler (virtual time; without a timeout the timeout event is not enabled)", depth, c18tNames, timeout)
+	R.Bound = fmt.Sprintf("all sequences of <= %d events over %v, concurrency 1 and 2, web timeout %v, through api.New + Register: the limiter in front of the web tree and of the API tree (virtual time; without a timeout the timeout event is not enabled)", depth, c18tNames, timeout)
 	R.Write()
 }
